@@ -128,6 +128,10 @@ func TestVerifC24(t *testing.T) {
 			}
 		}
 		slot := r.IntN(3*E) + r.IntN(2)*1_000_000
+		if r.IntN(4) == 0 { // the whole 32-bit range: around 2^16, 2^31 and 2^32 (a slot narrowed to 16 or 31 bits selects another queue entry)
+			slot = []int{1<<16 - 1, 1 << 16, 1<<16 + 17, 70000, 1<<31 - 1, 1 << 31, 1<<31 + 41, 1<<32 - 1, 1<<32 - 80}[r.IntN(9)] - r.IntN(3)
+			h.Inc("slots_at_or_above_2^16")
+		}
 		gs := map[int][]hsh{}
 		multi := false
 		var eg types.GuaranteesExtrinsic
